@@ -58,14 +58,34 @@ theorem Info.Geo.inb {i : Info} (g : i.Geo) {t q : Nat} (ht : t < i.numberOfSegm
   rw [g.hnat, segStart_eq, segStride_eq]
   exact geo_inb _ _ _ _ _ _ g.hba g.hspp g.hpl ht hq
 
+/-- the encoded frame (64-byte header + padded segments) is at most `maxEncodedFrameLength` = 0xFFFFFFFE bytes
+    long: exactly the frames `encodeFrame` does not refuse (see `encodeFrame_chunks` / `encodeFrame_tooBig`) -/
+def EncFits (i : Info) (src : Array Byte) : Prop :=
+  64 + (chunksOf i src).flatten.length ≤ maxEncodedFrameLength
+
+instance (i : Info) (src : Array Byte) : Decidable (EncFits i src) := by unfold EncFits; infer_instance
+
 theorem encodeFrame_chunks (i : Info) (g : i.Geo) (src : Array Byte)
-    (hlen : src.size = i.nativeLen) : encodeFrame i src = .ok (mkStream (chunksOf i src)) := by
+    (hlen : src.size = i.nativeLen) (hfit : EncFits i src) :
+    encodeFrame i src = .ok (mkStream (chunksOf i src)) := by
   have hn := g.nseg_le
   have hpos : 1 ≤ i.nativeLen := by
     rw [g.hnat]; exact Nat.mul_pos g.nseg_pos g.hpc
   apply encodeFrame_eq i src (planeP i src) (by omega) (by omega) g.nseg_pos g.hpc
-  intro t ht
-  exact readPlane_eq src _ _ _ (fun k hk => by rw [hlen]; exact g.inb ht hk)
+  · intro t ht
+    exact readPlane_eq src _ _ _ (fun k hk => by rw [hlen]; exact g.inb ht hk)
+  · exact hfit
+
+/-- a frame whose encoding would pass 0xFFFFFFFE bytes is refused with an error (not truncated offsets) -/
+theorem encodeFrame_tooBig (i : Info) (g : i.Geo) (src : Array Byte)
+    (hlen : src.size = i.nativeLen) (hbig : ¬ EncFits i src) : encodeFrame i src = .err := by
+  have hn := g.nseg_le
+  have hpos : 1 ≤ i.nativeLen := by
+    rw [g.hnat]; exact Nat.mul_pos g.nseg_pos g.hpc
+  apply encodeFrame_reject i src (planeP i src) (by omega) (by omega) g.nseg_pos g.hpc
+  · intro t ht
+    exact readPlane_eq src _ _ _ (fun k hk => by rw [hlen]; exact g.inb ht hk)
+  · unfold EncFits chunksOf at hbig; omega
 
 
 theorem chunksOf_length (i : Info) (src : Array Byte) :
@@ -119,6 +139,32 @@ theorem chunksOf_bound (i : Info) (g : i.Geo) (hf : i.Fits32) (src : Array Byte)
   omega
 
 
+theorem fits32_encFits (i : Info) (g : i.Geo) (hf : i.Fits32) (src : Array Byte) : EncFits i src := by
+  have h1 := flatten_length_le (chunksOf i src) (2 * i.pixelCount + 1)
+    (fun c hc => (chunksOf_mem i g src c hc).2.2)
+  rw [chunksOf_length] at h1
+  have h2 : i.numberOfSegments * (2 * i.pixelCount + 1) = 2 * i.nativeLen + i.numberOfSegments := by
+    rw [g.hnat, Nat.mul_add, Nat.mul_one, Nat.mul_left_comm]; rfl
+  have := g.nseg_le
+  unfold Info.Fits32 at hf
+  unfold EncFits maxEncodedFrameLength
+  omega
+
+theorem encFits_bound (i : Info) (src : Array Byte) (h : EncFits i src) :
+    64 + (chunksOf i src).flatten.length < 4294967296 := by
+  unfold EncFits maxEncodedFrameLength at h; omega
+
+/-- what an accepted encode tells: the frame fits and the stream is the chunk stream -/
+theorem encodeFrame_ok_inv (i : Info) (g : i.Geo) (src : Array Byte) (hlen : src.size = i.nativeLen)
+    (enc : List Byte) (he : encodeFrame i src = .ok enc) :
+    EncFits i src ∧ enc = mkStream (chunksOf i src) := by
+  by_cases hfit : EncFits i src
+  · rw [encodeFrame_chunks i g src hlen hfit] at he
+    injection he with he
+    exact ⟨hfit, he.symm⟩
+  · rw [encodeFrame_tooBig i g src hlen hfit] at he
+    cases he
+
 theorem Info.Geo.cover {i : Info} (g : i.Geo) {j : Nat} (hj : j < i.nativeLen) :
     ∃ s q, s < i.numberOfSegments ∧ q < i.pixelCount ∧ i.segStart s + q * i.segStride = j := by
   rw [g.hnat] at hj
@@ -153,14 +199,14 @@ theorem cell_append_pad (src : Array Byte) (c : Prop) [Decidable c] (j : Nat) :
     · by_cases h0 : j - src.size = 0 <;> simp [h0]
     · simp
 
-theorem decode_chunks (i : Info) (g : i.Geo) (hf : i.Fits32) (src : Array Byte)
-    (hlen : src.size = i.nativeLen) :
+theorem decode_chunks (i : Info) (g : i.Geo) (src : Array Byte)
+    (hlen : src.size = i.nativeLen) (hfit : EncFits i src) :
     decodeFrame i (mkStream (chunksOf i src)) =
       .ok (src ++ (if i.nativeLen % 2 = 1 then #[0] else #[])) := by
   have hcl := chunksOf_length i src
   have h1 : 1 ≤ (chunksOf i src).length := by rw [hcl]; exact g.nseg_pos
   have h15 : (chunksOf i src).length ≤ 15 := by rw [hcl]; have := g.nseg_le; omega
-  have hb := chunksOf_bound i g hf src
+  have hb := encFits_bound i src hfit
   obtain ⟨offs, hph, hoffs⟩ := parseHeader_stream _ h1 h15 hb
   have hfs : i.frameSize = i.nativeLen + (if i.nativeLen % 2 = 1 then 1 else 0) := by
     unfold Info.frameSize; split <;> rename_i h <;> simp [h]
@@ -223,41 +269,76 @@ theorem planeP_eq_planeOf (i : Info) (g : i.Geo) (src : Array Byte) (k : Nat)
   rw [geo_plane _ _ _ _ _ _ g.hba g.hspp g.hpl hk, ← segStart_eq, ← segStride_eq]
   simp [cell, List.getD_eq_getElem?_getD]
 
-theorem rle_encode_ok' (i : Info) (hi : i.Accepted) (src : Array Byte) (hlen : src.size = i.nativeLen) :
-    ∃ enc, encodeFrame i src = .ok enc :=
-  ⟨_, encodeFrame_chunks i hi.geo src hlen⟩
-
-theorem rle_roundtrip' (i : Info) (hi : i.Accepted) (hf : i.Fits32) (src : Array Byte)
+theorem rle_encode_ok' (i : Info) (hi : i.Accepted) (hf : i.Fits32) (src : Array Byte)
     (hlen : src.size = i.nativeLen) :
-    ∃ enc, encodeFrame i src = .ok enc ∧
-      decodeFrame i enc = .ok (src ++ (if i.nativeLen % 2 = 1 then #[0] else #[])) :=
-  ⟨_, encodeFrame_chunks i hi.geo src hlen, decode_chunks i hi.geo hf src hlen⟩
+    ∃ enc, encodeFrame i src = .ok enc :=
+  ⟨_, encodeFrame_chunks i hi.geo src hlen (fits32_encFits i hi.geo hf src)⟩
 
-theorem rle_stream_wf' (i : Info) (hi : i.Accepted) (hf : i.Fits32) (src : Array Byte)
+/-- the size guard, both directions: refused exactly when the encoding would pass 0xFFFFFFFE bytes; never a panic -/
+theorem rle_encode_guard' (i : Info) (hi : i.Accepted) (src : Array Byte) (hlen : src.size = i.nativeLen) :
+    (encodeFrame i src = .err ↔ ¬ EncFits i src) ∧ encodeFrame i src ≠ .panic ∧
+    (∀ enc, encodeFrame i src = .ok enc → enc.length ≤ maxEncodedFrameLength ∧ enc.length % 2 = 0) := by
+  have g := hi.geo
+  by_cases hfit : EncFits i src
+  · have he := encodeFrame_chunks i g src hlen hfit
+    refine ⟨?_, ?_, ?_⟩
+    · rw [he]; constructor
+      · intro h; cases h
+      · intro h; exact absurd hfit h
+    · rw [he]; intro h; cases h
+    · intro enc h
+      rw [he] at h
+      injection h with h
+      subst h
+      have hcl := chunksOf_length i src
+      have h15 : (chunksOf i src).length ≤ 15 := by rw [hcl]; have := g.nseg_le; omega
+      rw [mkStream_length _ h15]
+      refine ⟨hfit, ?_⟩
+      have hev : ∀ (L : List (List Byte)), (∀ c, c ∈ L → c.length % 2 = 0) → L.flatten.length % 2 = 0 := by
+        intro L
+        induction L with
+        | nil => intro _; rfl
+        | cons c L ih =>
+          intro h
+          have h1 := h c (by simp)
+          have h2 := ih (fun c hc => h c (by simp [hc]))
+          simp only [List.flatten_cons, List.length_append]
+          omega
+      have := hev (chunksOf i src) (fun c hc => (chunksOf_mem i g src c hc).1)
+      omega
+  · have he := encodeFrame_tooBig i g src hlen hfit
+    refine ⟨?_, ?_, ?_⟩
+    · rw [he]; exact ⟨fun _ => hfit, fun _ => rfl⟩
+    · rw [he]; intro h; cases h
+    · intro enc h; rw [he] at h; cases h
+
+theorem rle_roundtrip' (i : Info) (hi : i.Accepted) (src : Array Byte)
+    (hlen : src.size = i.nativeLen) (enc : List Byte) (he : encodeFrame i src = .ok enc) :
+    decodeFrame i enc = .ok (src ++ (if i.nativeLen % 2 = 1 then #[0] else #[])) := by
+  obtain ⟨hfit, rfl⟩ := encodeFrame_ok_inv i hi.geo src hlen enc he
+  exact decode_chunks i hi.geo src hlen hfit
+
+theorem rle_stream_wf' (i : Info) (hi : i.Accepted) (src : Array Byte)
     (hlen : src.size = i.nativeLen) (enc : List Byte) (he : encodeFrame i src = .ok enc) :
     AnnexG.headerOk enc i.numberOfSegments = true := by
   have g := hi.geo
-  rw [encodeFrame_chunks i g src hlen] at he
-  injection he with he
-  subst he
+  obtain ⟨hfit, rfl⟩ := encodeFrame_ok_inv i g src hlen enc he
   have hcl := chunksOf_length i src
   have := headerOk_stream (chunksOf i src) (by rw [hcl]; exact g.nseg_pos)
-    (by rw [hcl]; have := g.nseg_le; omega) (chunksOf_bound i g hf src)
+    (by rw [hcl]; have := g.nseg_le; omega) (encFits_bound i src hfit)
     (fun c hc => ⟨(chunksOf_mem i g src c hc).1, (chunksOf_mem i g src c hc).2.1⟩)
   rwa [hcl] at this
 
-theorem rle_spec_agrees' (i : Info) (hi : i.Accepted) (hf : i.Fits32) (src : Array Byte)
+theorem rle_spec_agrees' (i : Info) (hi : i.Accepted) (src : Array Byte)
     (hlen : src.size = i.nativeLen) (enc : List Byte) (he : encodeFrame i src = .ok enc) :
     AnnexG.readPlanes enc i.numberOfSegments i.pixelCount =
       some ((List.range i.numberOfSegments).map
         (AnnexG.planeOf src.toList i.bytesAllocated i.spp i.pixelCount i.planar)) := by
   have g := hi.geo
-  rw [encodeFrame_chunks i g src hlen] at he
-  injection he with he
-  subst he
+  obtain ⟨hfit, rfl⟩ := encodeFrame_ok_inv i g src hlen enc he
   have hcl := chunksOf_length i src
   have := readPlanes_stream (chunksOf i src) (by rw [hcl]; exact g.nseg_pos)
-    (by rw [hcl]; have := g.nseg_le; omega) (chunksOf_bound i g hf src)
+    (by rw [hcl]; have := g.nseg_le; omega) (encFits_bound i src hfit)
     (fun c hc => ⟨(chunksOf_mem i g src c hc).1, (chunksOf_mem i g src c hc).2.1⟩)
     i.pixelCount (AnnexG.planeOf src.toList i.bytesAllocated i.spp i.pixelCount i.planar)
     (by
